@@ -349,7 +349,7 @@ partial def loop (h : IO.FS.Stream) (out : IO.FS.Stream) (s : DState) : IO DStat
     let (s', lines) := step s (tokens l)
     for x in lines do out.putStrLn x
     out.putStrLn (endLine s'.w)
-    loop h out s'
+    loop h out { s' with blk := s'.blk.rotate }
 
 end Driver
 
@@ -408,6 +408,10 @@ def checkMain (prop : String) (path : String) : IO Unit := do
     | "C07" => some Driver.Check.checkC07
     | "C08" => some Driver.Check.checkC08
     | "C19" => some Driver.Check.checkC19
+    | "C09" => some Driver.Check.checkC09
+    | "C10" => some Driver.Check.checkC10
+    | "C18" => some Driver.Check.checkC18
+    | "C01" => some Driver.Check.checkC01
     | _ => none
   match f with
   | none => stdout.putStrLn s!"no-predicate {prop}"
